@@ -131,7 +131,7 @@ def run(ctx):
 
 MANIFEST = {
     "category": "other",
-    "technique": "exhaustive decision tables of the membership transition functions (forking abstract interpretation) + edge-guard rule on GroupCrdt::process",
+    "technique": "exhaustive decision tables of the membership transition functions (forking abstract interpretation) + edge-guard rule on GroupCrdt::process; must-pass rule in validate (resolver run before any Ok on the concurrent edge)",
     "text": "Static over all paths of the five transition functions: no accepting row without the actor checks; and validation dominates application in process. Necessary structural conditions of `only authorized actors`; correctness of the reference state over histories is not decided.",
     "note": "Trusted: rustc MIR, driver, abstract interpreter; HashMap::get / is_member / is_manager as pure predicates of the state.",
 }
